@@ -4,12 +4,24 @@
 From Coq Require Import String.
 From Coq Require Import List NArith ZArith Bool Lia.
 Import ListNotations.
-From JR Require Import Stream Stream_Proofs.
-From JRGen Require Extracted.
+From JR Require Import Stream Stream_Proofs Locks.
+From JRGen Require Extracted LockTable.
+Import LockTable.
 
 Theorem c08_source_facts :
-  Extracted.callsites_closeChans = ["tryReconnect"; "handleWsConn"]%string.
-Proof. reflexivity. Qed.
+  Extracted.callsites_closeChans = ["tryReconnect"; "handleWsConn"]%string /\
+  (* the sink callback is invoked at exactly three sites, each time under the channel handler's own mutex: a value in
+     delivery and the closing of the sink never overlap (regenerated lock table) *)
+  sink_callbacks_locked lock_rows = true /\
+  sink_callback_sites lock_rows = ["handleChanMessage"; "handleChanClose"; "closeChans"]%string.
+Proof. repeat split; vm_compute; reflexivity. Qed.
+
+(* in the model: the connection-side close of a sink is not enabled while a value is inside the sink callback *)
+Theorem c08_close_not_during_delivery : forall s s', sstep s CcClose = Some s' -> inval s = true -> ctxc s = true.
+Proof.
+  intros s s' H Hi. unfold sstep in H. destruct (sink s); try discriminate. rewrite Hi in H.
+  destruct (ctxc s); [reflexivity|discriminate].
+Qed.
 
 (* prefix only, under every cause and every race: nothing invented, duplicated or reordered *)
 Theorem c08_prefix_always : forall es s, srun s0 es = Some s -> Prefix (cons s) (tried s).
@@ -24,8 +36,13 @@ Proof. exact no_second_close. Qed.
 
 (* termination, as enabledness + a decreasing measure: whenever a cause has occurred the steps that lead to the
    close are enabled, and the only thing left to wait for is the consumer taking what was already accepted *)
-Theorem c08_conn_loss_closes_entry : forall s, sink s = SOpen -> exists s', sstep s CcClose = Some s' /\ sink s' = SClosed.
-Proof. intros s H. simpl. rewrite H. eexists. split; reflexivity. Qed.
+Theorem c08_conn_loss_closes_entry : forall s, sink s = SOpen -> (inval s = false \/ ctxc s = true) ->
+  exists s', sstep s CcClose = Some s' /\ sink s' = SClosed.
+Proof.
+  intros s H G. simpl. rewrite H.
+  assert (E : inval s && negb (ctxc s) = false) by (destruct G as [-> | ->]; [reflexivity|apply andb_false_r]).
+  rewrite E. eexists. split; reflexivity.
+Qed.
 
 Theorem c08_cancel_closes : forall s, ctxc s = true -> cclosed s = false -> exists s', sstep s ConsClosed = Some s' /\ cclosed s' = true.
 Proof. intros s H1 H2. simpl. rewrite H1, H2. simpl. eexists. split; reflexivity. Qed.
@@ -52,6 +69,7 @@ Proof.
 Qed.
 
 Print Assumptions c08_source_facts.
+Print Assumptions c08_close_not_during_delivery.
 Print Assumptions c08_prefix_always.
 Print Assumptions c08_closed_is_final.
 Print Assumptions c08_no_second_close.
